@@ -383,6 +383,17 @@ struct FilterInterp : Sink
 				else { copy = new D(); *copy = *disp; }
 			}
 			catch(...) { delete copy; throw; }
+			// independence: before the source goes away it loses every filter and listener the harness still has a handle for, and gets
+			// one more filter of its own - none of which may reach the copy (a filter list shared between the two shows as
+			// filter-skipped / an unexpected filter in the copy's next dispatch)
+			{
+				FaultOff off;
+				for(int s2 = 0; s2 < MAXSLOT; ++s2) {
+					if(slotKind[s2] == 1) C::removeFilter(*disp, fhandles[s2]);
+					else if(slotKind[s2] == 3) C::removeListener(*disp, slotKey[s2], lhandles[s2]);
+				}
+				if(slotKind[MAXSLOT - 1] == 0) { FilterFn poison(MAXSLOT - 1); C::addFilter(*disp, poison); }
+			}
 			delete disp; disp = copy;
 			++counters.copies;
 			for(int s2 = 0; s2 < MAXSLOT; ++s2) {
@@ -593,6 +604,13 @@ struct CondFn : Tracked<seq::T_COND, false>
 	explicit CondFn(int id) : Tracked<seq::T_COND, false>(id) {}
 	bool operator() (int a, const Payload & p) const { faultPoint(F_CALL); FaultOff off; this->alive("condition evaluated"); return g_sink->condition(this->id, a, p.val); }
 };
+// adapted to take the payload BY VALUE while the list's prototype passes it by non-const reference: the adapter must hand the listener a
+// copy - a listener that receives the caller's object itself (moved into its parameter) empties it for every later listener and the caller
+struct ByValueListenerFn : Tracked<seq::T_FN, false>
+{
+	explicit ByValueListenerFn(int id) : Tracked<seq::T_FN, false>(id) {}
+	void operator() (long a, Payload p) const { faultPoint(F_CALL); FaultOff off; g_sink->listener(this->id, a, p.val); }
+};
 struct LongListenerFn : Tracked<seq::T_FN, false>
 {
 	explicit LongListenerFn(int id) : Tracked<seq::T_FN, false>(id) {}
@@ -616,7 +634,7 @@ struct DerivedListenerFn : Tracked<seq::T_FN, false>
 struct WrapInterp : Sink
 {
 	void relabel() {}
-	typedef eventpp::CallbackList<void (int, const Payload &)> L;
+	typedef eventpp::CallbackList<void (int, Payload &)> L;   // non-const reference: what one listener does to the argument, the next one sees
 	typedef eventpp::CallbackList<void (std::shared_ptr<BaseEv>, int)> LS;
 	const Plan & plan;
 	seq::Violation viol;
@@ -682,6 +700,7 @@ struct WrapInterp : Sink
 				FaultArm arm;
 				if(fl == 0) { ListenerFn f(id); lh[id] = list->append(f); }
 				else if(fl == 1) { ListenerFn f(id); CondFn c(id); lh[id] = list->append(eventpp::conditionalFunctor(f, c)); }
+				else if(id % 3 == 2) { ByValueListenerFn f(id); lh[id] = list->append(eventpp::argumentAdapter<void (long, Payload)>(f)); }
 				else if(id & 1) { LongListenerFn f(id); lh[id] = list->append(eventpp::argumentAdapter<void (long, const Payload &)>(f)); }
 				else { std::function<void (long, const Payload &)> sf((LongListenerFn(id))); lh[id] = list->append(eventpp::argumentAdapter(sf)); }   // the overload deducing the prototype from a std::function
 			}
@@ -708,7 +727,10 @@ struct WrapInterp : Sink
 			try {
 				FaultArm arm;
 				if(sharedDispatch) { std::shared_ptr<BaseEv> e = std::make_shared<DerivedEv>(op.a); (*slist)(e, op.a * 2 + 1); }
-				else { Payload p(4000, op.b); (*list)(op.a, p); }
+				else {
+					Payload p(4000, op.b); (*list)(op.a, p);
+					if(p.val != op.b) viol.raise("argument-mismatch", "the caller's own argument holds " + std::to_string(p.val) + " after the invocation instead of " + std::to_string(op.b) + " (no listener modifies it)");
+				}
 			}
 			catch(...) { inDispatch = false; throw; }
 			inDispatch = false;
